@@ -152,14 +152,14 @@ def run_op(case, num):
     def K(x):
         return lib.conv_knot(x, num)
     if op == "eval":
-        us = [K(u) for u in gen.params_of(case["A"]["U"], 1)]
+        us = [K(u) for u in gen.params_of(case["A"]["U"], 1, gen.NEAR)]
         vals = [A(u) for u in us] + [A(tuple(us))]
         return [("value", tuple(lib.point_tuple(v)), us[i]) for i, v in enumerate(vals[:-1])], vals
     if op == "basis":
         f = lib.Function([K(u) for u in case["A"]["U"]])
         if case["A"]["w"] is not None:
             f.weights = [lib.conv_val(x, num) for x in case["A"]["w"]]
-        us = [K(u) for u in gen.params_of(case["A"]["U"], 1)]
+        us = [K(u) for u in gen.params_of(case["A"]["U"], 1, gen.NEAR)]
         rows = [f[:, j](tuple(us)) for j in range(a.p + 1)]
         flat = tuple(oracle.frac(v) for tab in rows for row in tab for v in row)
         return [("value", flat, None)], rows
@@ -286,9 +286,9 @@ def expected(case, num="frac"):
     bk = oracle.breaks(a.U)
     t = case["t"]
     if op == "eval":
-        return [("value", oracle.ceval(a, u)) for u in gen.params_of(case["A"]["U"], 1)]
+        return [("value", oracle.ceval(a, u)) for u in gen.params_of(case["A"]["U"], 1, gen.NEAR)]
     if op == "basis":
-        us = gen.params_of(case["A"]["U"], 1)
+        us = gen.params_of(case["A"]["U"], 1, gen.NEAR)
         flat = []
         for j in range(a.p + 1):
             for i in range(a.n):
@@ -490,11 +490,11 @@ def expected_rounded(case, num):
     exp = expected(c2)
     if case["op"] == "eval":
         a = lib.case_state(c2["A"])
-        us = [oracle.frac(lib.conv_knot(u, num)) for u in gen.params_of(case["A"]["U"], 1)]
+        us = [oracle.frac(lib.conv_knot(u, num)) for u in gen.params_of(case["A"]["U"], 1, gen.NEAR)]
         exp = [("value", oracle.ceval(a, u)) for u in us]
     if case["op"] == "basis":
         a = lib.case_state(c2["A"])
-        us = [oracle.frac(lib.conv_knot(u, num)) for u in gen.params_of(case["A"]["U"], 1)]
+        us = [oracle.frac(lib.conv_knot(u, num)) for u in gen.params_of(case["A"]["U"], 1, gen.NEAR)]
         flat = []
         for j in range(a.p + 1):
             for i in range(a.n):
